@@ -18,6 +18,7 @@ RULE = ("angles: dyadic multiples of pi (n*pi/2^d, d up to 40), +-0, +-tiny (1e-
         "has integer 0<=n<=255 and 0<=d<=255, at most 64 steps, and |sum n*pi/2^d - angle| mod 2pi <= tol + ulp(angle) "
         "+ 1e-14 (the input float itself is only known to one ulp)."
         ' The SDK route also passes explicit (n, d) together with angle (documented as ignored), including angles of exactly zero. '
+        ' Angles also as numpy float16 / float32 scalars. '
         "Non-trivial = angle not within tol of 0 mod 2pi "
         "(at least one step expected); distinct = distinct (angle, tol, route).")
 ASSUMPTIONS = [
